@@ -27,6 +27,9 @@ type omap struct {
 	n       int
 	nsym    int // live entries with symbolic keys
 	id      int
+
+	perm      []*mentry // iteration order chosen inside nd.AnyMapOrder
+	permEpoch int
 }
 
 var omapSeq int
